@@ -57,10 +57,10 @@ Proof.
   destruct vs as [|v0 [|v1 l]]; try discriminate.
   unfold concat_items.
   assert (H0 : is_nil v0 = false) by (apply Hnn; now left).
-  destruct v0 as [s|k z| |tag p|m]; cbn in H0; try discriminate H0; cbn [dyn_ty].
+  destruct v0 as [s|k z| |tag p|mt m]; cbn in H0; try discriminate H0; cbn [dyn_ty].
   - apply concat_typed_no_panic; discriminate.
   - apply concat_typed_no_panic; discriminate.
   - apply concat_typed_no_panic; discriminate.
-  - pose proof (concat_maps_no_panic (S (depth_list (CMap m :: v1 :: l))) (maps (CMap m :: v1 :: l))) as H.
+  - pose proof (concat_maps_no_panic (S (depth_list (CMap mt m :: v1 :: l))) (maps (CMap mt m :: v1 :: l))) as H.
     destruct (concat_maps _ _); cbn; congruence.
 Qed.
